@@ -111,6 +111,7 @@ CONFIGS["translation/shift"] = _cfg("translation/shift", "translation/active", K
 CONFIGS["translation/half"] = _cfg("translation/half", "translation/active", K2D)
 CONFIGS["curvature/empty"] = _cfg("curvature/empty", "curvature/neutral", K2D, neutral="values")
 CONFIGS["curvature/zero"] = _cfg("curvature/zero", "curvature/neutral", K2D, neutral="values")
+CONFIGS["curvature/zero-offcentre"] = _cfg("curvature/zero-offcentre", "curvature/neutral", K2D, neutral="values")
 CONFIGS["curvature/bulge"] = _cfg("curvature/bulge", "curvature/warp", K2D)
 CONFIGS["curvature/stretch"] = _cfg("curvature/stretch", "curvature/warp", K2D)
 CONFIGS["curvature/crop"] = _cfg("curvature/crop", "curvature/crop", K2D)
@@ -381,6 +382,11 @@ def _build(name, shape):
                 return darsia.CurvatureCorrection(config={})
             if sub == "zero":
                 return darsia.CurvatureCorrection(config={"init": dict(zero_b), "bulge": dict(zero_b), "stretch": dict(zero_s)})
+            if sub == "zero-offcentre":
+                # zero bulge and stretch are neutral wherever the centre is put
+                off_b = {"horizontal_bulge": 0.0, "horizontal_center_offset": 1, "vertical_bulge": 0.0, "vertical_center_offset": -2}
+                off_s = {"horizontal_stretch": 0.0, "horizontal_center_offset": -1, "vertical_stretch": 0.0, "vertical_center_offset": 1}
+                return darsia.CurvatureCorrection(config={"init": dict(off_b), "bulge": dict(off_b), "stretch": dict(off_s)})
             if sub == "bulge":
                 return darsia.CurvatureCorrection(config={"bulge": bulge})
             if sub == "stretch":
